@@ -58,11 +58,14 @@ FORMS = ["y", "np.log(trials)", "s", "sp", "c", "o", "s[a]", "s['b']", "sp['two 
 
 
 def PROOFS():
-    from ..contracts import transforms_c, variable_c, terms_c, matrices_c, scanner_c  # noqa: F401
+    from ..contracts import transforms_c, variable_c, terms_c, matrices_c, scanner_c, offset_c  # noqa: F401
     T = "formulae.transforms."
     return [("vf.contracts.transforms_c", [T + "Proportion.__init__", T + "Proportion.eval"]),
             ("vf.contracts.variable_c", ["formulae.terms.variable.Variable.eval_categoric"]),
             ("vf.contracts.terms_c", ["formulae.terms.terms.Response.__init__"]),
+            # prop() only as a response (refused otherwise); the response term's value is the successes / trials pair; offset() never as one
+            ("vf.contracts.offset_c", ["formulae.terms.call.Call.eval_proportion", "formulae.terms.call.Call.eval_offset",
+                                       "formulae.terms.call.Call.eval_offset#variable"]),
             ("vf.contracts.matrices_c", ["formulae.matrices.ResponseMatrix.evaluate"]),
             # the level of y['level'] is the text between its own quotes
             ("vf.contracts.scanner_c", ["formulae.scanner.Scanner.char", "formulae.scanner.Scanner.add_token"])]
